@@ -20,7 +20,7 @@ EXPLANATION = ('Sibling cross-check of the two cmap implementations on the AST/C
                'condition at both users, and the bounds that make the cached block table access safe.  Glyph ids are run-time '
                'values and are not decided; agreement of the routing is the necessary condition for the two paths to agree on '
                'every code point.')
-FLOORS = {'SELECTORS': 12, 'PLANEROUTE': 5, 'FALLBACK': 2, 'CMAPBOUND': 4, 'NARROWREAD': 1}
+FLOORS = {'SELECTORS': 12, 'PLANEROUTE': 8, 'FALLBACK': 3, 'CMAPBOUND': 4, 'NARROWREAD': 1}
 
 BMP_ORDER = [(3, 1), (0, 3), (0, 2), (0, 1), (0, 0)]
 SMP_ORDER = [(3, 10), (0, 4)]
@@ -244,6 +244,164 @@ def lookupfirst(run, fx):
         run.held('FALLBACK', inst, fn.loc(look[0]), 'the cmap lookup dominates all %d returns' % len(rets))
 
 
+def segsearch(run, fx, rule='PLANEROUTE'):
+    """"the glyph a face maps it to is the one given by the font's cmap subtables": the lookups select the segment / group / pseudo entry
+    that CONTAINS the code point.  The search parts of CmapSubtable4Lookup, CmapSubtable12Lookup and Silf::findPseudo only compare code
+    points, so they are decided by order-type interpretation (rules/ordint.py) on every sorted table of up to 4 segments / 3 groups / 3
+    entries against every placement of the looked-up character, without and with the range hint the cached cmap passes: when a
+    segment contains the character, its own glyph data (idDelta cell / start_glyph_id / gid) is what is read and something other than
+    the literal 0 is returned; when none does, 0 is returned.  The glyph arithmetic after the selection is value-level, not decided."""
+    from . import ordint as O
+    import itertools
+    # ---------------------------------------------------------------------------------------- format 12
+    f12 = fx.one('graphite2::TtfUtil::CmapSubtable12Lookup')
+    T12 = 'graphite2::TtfUtil::Sfnt::CmapSubTableFormat12::'
+    G12 = T12 + '(anonymous struct)::'
+
+    def sorted_ranges(n):
+        """all order types of n sorted, disjoint, non-empty-or-single ranges on an even grid (start <= end < next start)"""
+        for combo in itertools.product((0, 2), repeat=n):          # width 0 (single code point) or 2
+            for gaps in itertools.product((2, 4), repeat=n):
+                pos, out = 0, []
+                for w, g in zip(combo, gaps):
+                    pos += g
+                    out.append((pos, pos + w))
+                    pos += w
+                yield out
+
+    def run12():
+        cases = 0
+        for n in range(0, 4):
+            for rs in sorted_ranges(n):
+                hi = (rs[-1][1] if rs else 0) + 3
+                for key in range(0, hi + 1):
+                    want = [k for k, (a, b) in enumerate(rs) if a <= key <= b]
+                    for hint in ([0] + ([want[0]] if want and want[0] else [])):
+                        tab = O.Rec()
+                        groups = O.Vec()
+                        for k, (a, b) in enumerate(rs):
+                            g = O.Rec()
+                            g[G12 + 'start_char_code'] = O.Co(a)
+                            g[G12 + 'end_char_code'] = O.Co(b)
+                            g[G12 + 'start_glyph_id'] = O.W(('G%d' % k,))
+                            groups.items.append(g)
+                        for fld in ('format', 'length', 'language'):
+                            tab[T12 + fld] = O.Op()
+                        tab[T12 + 'num_groups'] = n
+                        tab[T12 + 'group'] = O.It(groups, 0)
+                        it = O.Interp(fx)
+                        it.coords_may_feed_costs = True
+                        it.MAX_STEPS = 4000
+                        it.read_log = []
+                        gid_reads = []
+                        try:
+                            r = it.call(f12, None, [O.Ptr(tab), O.Co(key), hint])
+                        except O.Violation as v:
+                            return cases, 'groups %s, character %s: %s (%s)' % (rs, key, v.what, v.loc)
+                        cases += 1
+                        # which group's start_glyph_id flowed into the answer is visible from the result's shape: 0 means "unmapped"
+                        found = not (isinstance(r, int) and r == 0)
+                        if bool(want) != found:
+                            return cases, ('groups %s (each [start,end]), character at %s%s: %s' % (
+                                rs, key, (' with range hint %d' % hint) if hint else '',
+                                'the group that contains it is not found (0 returned)' if want else 'a glyph is returned although no group contains it'))
+                        if want:
+                            picked = [idx for vec, idx in it.read_log if vec is groups]
+                            if not picked or picked[-1] != want[0]:
+                                return cases, 'groups %s, character at %s: the answer is taken from group %s, the character lies in group %d' % (rs, key, picked[-1:] or '-', want[0])
+        return cases, None
+
+    # ---------------------------------------------------------------------------------------- format 4
+    f4 = fx.one('graphite2::TtfUtil::CmapSubtable4Lookup')
+    T4 = 'graphite2::TtfUtil::Sfnt::CmapSubTableFormat4::'
+    TB = 'graphite2::TtfUtil::Sfnt::CmapSubTable::'
+
+    def run4():
+        cases = 0
+        for n in range(1, 5):
+            for rs in sorted_ranges(n):
+                hi = rs[-1][1] + 3
+                for key in range(0, hi + 1):
+                    want = [k for k, (a, b) in enumerate(rs) if a <= key <= b]
+                    for hint in ([0] + ([want[0]] if want and want[0] else [])):
+                        cells = [O.Co(b) for a, b in rs] + [0] + [O.Co(a) for a, b in rs] + [O.W(('D%d' % k,)) for k in range(n)] + [0] * n
+                        flat = O.Vec(cells)
+                        tab = O.Rec()
+                        for fld in ('search_range', 'entry_selector', 'range_shift'):
+                            tab[T4 + fld] = O.Op()
+                        tab[T4 + 'seg_count_x2'] = 2 * n
+                        tab[T4 + 'end_code'] = O.It(flat, 0)
+                        tab[TB + 'format'] = 4
+                        tab[TB + 'length'] = 16 + 8 * n + 2
+                        tab[TB + 'language'] = 0
+                        it = O.Interp(fx)
+                        it.coords_may_feed_costs = True
+                        it.MAX_STEPS = 4000
+                        it.read_log = []
+                        try:
+                            r = it.call(f4, None, [O.Ptr(tab), O.Co(key), hint])
+                        except O.Violation as v:
+                            return cases, 'segments %s, character %s%s: %s (%s)' % (rs, key, (' with range hint %d' % hint) if hint else '', v.what, v.loc)
+                        cases += 1
+                        found = not (isinstance(r, int) and r == 0)
+                        if bool(want) != found:
+                            return cases, ('segments %s (each [startCode,endCode]), character at %s%s: %s' % (
+                                rs, key, (' with range hint %d' % hint) if hint else '',
+                                'the segment that contains it is not found (glyph 0 returned)' if want else 'a glyph is returned although no segment contains it'))
+                        if want:
+                            picked = [idx - (2 * n + 1) for vec, idx in it.read_log if vec is flat and 2 * n + 1 <= idx < 3 * n + 1]
+                            if not picked or picked[-1] != want[0]:
+                                return cases, 'segments %s, character at %s: idDelta of segment %s is used, the character lies in segment %d' % (rs, key, picked[-1:] or '-', want[0])
+        return cases, None
+
+    # ---------------------------------------------------------------------------------------- pseudo-glyph map
+    fp = fx.one('graphite2::Silf::findPseudo')
+    PS, PP = 'graphite2::Silf::', 'graphite2::Pseudo::'
+    srec = fx.record('graphite2::Silf')
+
+    def runp():
+        cases = 0
+        for n in range(0, 4):
+            for perm in itertools.permutations(range(n)):
+                uids = [2 + 2 * j for j in perm]
+                for key in range(0, 2 * n + 4):
+                    silf = O.Rec()
+                    for f in srec['fields']:
+                        silf[PS + f['n']] = None
+                    ents = O.Vec()
+                    for k, u in enumerate(uids):
+                        r_ = O.Rec()
+                        r_[PP + 'uid'] = O.Co(u)
+                        r_[PP + 'gid'] = 100 + k
+                        ents.items.append(r_)
+                    silf[PS + 'm_pseudos'] = O.It(ents, 0)
+                    silf[PS + 'm_numPseudo'] = n
+                    it = O.Interp(fx)
+                    it.MAX_STEPS = 2000
+                    try:
+                        r = it.call(fp, silf, [O.Co(key)])
+                    except O.Violation as v:
+                        return cases, 'pseudo map uids %s, character %s: %s (%s)' % (uids, key, v.what, v.loc)
+                    cases += 1
+                    want = [100 + k for k, u in enumerate(uids) if u == key]
+                    if (want and r != want[0]) or (not want and r != 0):
+                        return cases, 'pseudo map with code points %s, character %s: findPseudo answers %r, expected %s' % (uids, key, r, want[0] if want else 0)
+        return cases, None
+
+    for inst, fn, runner in (('format 12 lookup finds the group containing the character', f12, run12),
+                             ('format 4 lookup finds the segment containing the character', f4, run4),
+                             ('findPseudo finds the entry of the character', fp, runp)):
+        try:
+            cases, prob = runner()
+        except AnalysisBroken as ex:
+            run.broken(rule, inst, str(ex), fn.where())
+            continue
+        if prob:
+            run.violated(rule, inst, fn.where(), prob + ' [positions are order-type representatives]')
+        else:
+            run.held(rule, inst, fn.where(), '%d order types of (table, character, range hint)' % cases)
+
+
 def cmapbound(run, fx):
     op = fx.one('graphite2::CachedCmap::operator[]')
     usv = op.f['params'][0]['n']
@@ -421,5 +579,6 @@ def run(run):
     planeroute(run, fx)
     fallback(run, fx)
     lookupfirst(run, fx)
+    segsearch(run, fx)
     cmapbound(run, fx)
     narrowread(run, fx)
